@@ -22,7 +22,6 @@ var saturated atomic.Bool
 
 func IsSaturated() bool { return saturated.Load() }
 
-
 // Out is where verdict lines go (the library itself prints diagnostics to os.Stdout, which main silences).
 var Out io.Writer = os.Stdout
 
